@@ -26,6 +26,15 @@ CLAIMED = {
             "The interleaving part of C05 (renames, obsoleting between processes) is concurrency over real I/O and is not "
             "claimed.",
             "index builder, transport, names lock and pack objects are recording stubs; a pack name identifies its content"),
+    "C06": ("write-group life cycle of the pack collection (abort / suspend / resume / refuse)",
+            "The real RepositoryPackCollection._abort_write_group, _suspend_write_group, _resume_write_group and "
+            "_commit_write_group (with autopack and _save_pack_names behind it) over the record packs / effect log of "
+            "C04: an aborted group writes nothing and lists nothing; a suspended group is invisible and yields its "
+            "token; resuming it in a second group and committing shows exactly what committing directly would show "
+            "(with every crash point of that commit checked), aborting the resumed group shows the old content; a group "
+            "with missing compression parents or missing inventories is refused (BzrCheckError) without any effect. "
+            "Pack / index contents, token validation and the repository-level state machine are outside.",
+            "_resume_pack is a stand-in; the sanity checks answer from a symbolic choice; effects atomic as in C04"),
     "C07": ("autopack planning",
             "L1: pack_distribution/_max_pack_count for every total with <= 3/5 decimal digits; L2: plan_autopack_combinations "
             "for <= 4/5 packs with UNBOUNDED positive revision counts against an arbitrary valid distribution; L3: the real "
@@ -217,7 +226,6 @@ NOT_APPLICABLE = {
     "C01": "commit is the composition of dirstate (Rust), inventory deltas, groupcompress/btree writers and file-system I/O; the quantified objects are tree shapes and fault positions (structure to enumerate), no kernel accepts a symbolic input",
     "C02": "per-file graph heads over a real repository (vcsgraph + pack indices, compiled); histories are DAG structure, not values a solver can range over",
     "C03": "whole-repository streaming between formats through compiled (de)serialisers and I/O; only the shape of the history varies",
-    "C06": "behaviour of pack files, upload directory and indices on a real transport; checks run through compiled index code",
     "C08": "depends on which inventories/texts are physically present in two real repositories (CHK maps, groupcompress - Rust)",
     "C09": "dirstate (Rust) / git index (dulwich) mutations over a real file system; operation sequences are structure to enumerate (model-based testing target, not a solver target)",
     "C10": "the fast paths under comparison are compiled (dirstate ProcessEntry, CHK differ); inputs are tree shapes",
